@@ -145,7 +145,8 @@ let cycle_from a x =
 
 let a_big = max_int
 let sign_big s = (* "is |n| beyond any ring" for numbers that do not fit an OCaml int *)
-  match int_of_string_opt s with Some n -> n | None -> if s <> "" && s.[0] = '-' then - a_big else a_big
+  if s = "" then 0 (* a missing argument reads as 0, as in the harness *) else
+  match int_of_string_opt s with Some n -> n | None -> if s.[0] = '-' then - a_big else a_big
 
 let a_at a r n =
   if r = 0 then 0 else
@@ -251,8 +252,15 @@ let a_partition_ok a =
   let all = List.sort compare (List.concat a.cycles) in
   all = List.init a.n (fun i -> i + 1) && List.for_all (fun c -> c <> []) a.cycles
 
+(* values of Of must be OCaml ints; anything else is not an input the generator produces (it can
+   only come from shrinking) and is not judged *)
+let well_formed ops =
+  List.for_all (fun o -> o = "" || o.[0] <> 'O' ||
+    List.for_all (fun v -> v = "" || v = "." || int_of_string_opt v <> None) (String.split_on_char ',' (String.sub o 1 (String.length o - 1)))) ops
+
 let spec _prop inp out =
   let ops = split_ops inp in
+  if not (well_formed ops) then None else
   let outs = if out = "" then [] else String.split_on_char ';' out in
   let a = { cycles = []; vals = Hashtbl.create 16; n = 0 } in
   let rec go i ops outs =
